@@ -4,3 +4,4 @@ pub mod window;
 pub mod store;
 pub mod agenda;
 pub mod rete;
+pub mod fwd;
